@@ -55,19 +55,35 @@ func H15g() {
 	conn := &hConn{peer: transport.Peer{ID: "eve", Address: "addr", NodeDID: eve, Authenticated: true}}
 	p := &protocol{state: st, nodeDID: node, didResolver: res, decrypter: dec, ctx: ctx}
 
-	query := func(t *hTx) {
+	// a second connection: not authenticated, but its peer claims eve's node DID (an unauthenticated peer's DID is
+	// whatever it says)
+	connU := &hConn{peer: transport.Peer{ID: "mallory", Address: "addr2", NodeDID: eve, Authenticated: false}}
+	query := func(t *hTx, c *hConn) {
 		msg := &TransactionPayloadQuery{ConversationID: []byte{1}, TransactionRef: t.ref.Slice()}
-		_ = p.handleTransactionPayloadQuery(ctx, conn, &Envelope{Message: &Envelope_TransactionPayloadQuery{TransactionPayloadQuery: msg}})
+		_ = p.handleTransactionPayloadQuery(ctx, c, &Envelope{Message: &Envelope_TransactionPayloadQuery{TransactionPayloadQuery: msg}})
 	}
 	vTag("order")
 	nq := vLen(2, vParam("queries", 3))
 	for i := 0; i < nq; i++ {
+		c := conn
+		vTag("unauthenticated")
+		if vBool() {
+			c = connU
+		}
 		vTag("which")
 		if vBool() {
-			query(tx2)
+			query(tx2, c)
 		} else {
-			query(tx1)
+			query(tx1, c)
 		}
+	}
+	for _, e := range connU.sent {
+		if r := e.GetTransactionPayload(); r != nil && len(r.Data) > 0 {
+			vAssert(false, "H15g.unauthenticated_never_served: the payload of a private transaction was sent over an unauthenticated connection (after an earlier query by an authenticated participant)")
+		}
+	}
+	if len(connU.sent) > 0 {
+		vCover("unauthenticated-queried")
 	}
 	gotTx2 := false
 	for _, e := range conn.sent {
